@@ -45,7 +45,11 @@ func init() {
 			// "the strings that satisfy the recipe": the sets the count ranges over are the recipe's own
 			// Allow/Require/Exclude semantics only if the builder derives them as C03 says (= C03 R3.x re-run;
 			// not part of runC07 so that C06/C13, which re-run runC07, do not inherit it)
-			r.Borrow("R7.7", func() { checkAlphabetBuilder(p, r) })
+			r.Borrow("R7.7", func() {
+				checkAlphabetBuilder(p, r)
+				// the count is over set members: they are the characters only if every member is one character
+				checkAlphabetProvenance(p, r, "R2.1")
+			})
 		},
 	})
 }
